@@ -8,6 +8,10 @@ type Document struct {
 	ID      string
 	Parents []*Document
 	Data    any
+
+	// expanding holds the maps whose $merge directive is currently being
+	// expanded (see process1MapMerge and checkCircular).
+	expanding []map[string]any
 }
 
 func NewDocument(id string) *Document {
@@ -104,6 +108,20 @@ func (d *Document) Process(mergeFromDocs []*Document) ([]*Document, error) {
 	}
 
 	return docs, nil
+}
+
+// checkCircular reports a reference whose value contains a map that is still
+// being expanded: that value would end up inside the map's own expansion.
+// The map form of $merge removes the directive from its host before the
+// reference is resolved, so such loops are invisible to the depth limit.
+func (d *Document) checkCircular(ref any, v any) error {
+	for _, m := range d.expanding {
+		if containsMap(v, m) {
+			return fmt.Errorf("%#v: %w", ref, ErrCircularRef)
+		}
+	}
+
+	return nil
 }
 
 func (d *Document) String() string {
